@@ -2,6 +2,7 @@ package rangeproof
 
 import (
 	"fmt"
+	"math"
 	"strconv"
 
 	"github.com/privacybydesign/gabi/big"
@@ -216,6 +217,10 @@ func newWithParams(index, sign int, a uint, k *big.Int, split SquareSplitter, nS
 	}
 	if sign != 1 && sign != -1 {
 		return nil, ErrUnsupportedSign
+	}
+	if uint64(a) > math.MaxInt64 {
+		// a is used as (the negation of) an int64 exponent below
+		return nil, errors.New("factor too large")
 	}
 
 	var exp *big.Int
